@@ -666,11 +666,27 @@ class C08:
             g.add("bytewise", gen.req_op(tree, ov, cfg, [s[i:i + 1] for i in range(len(s))]))
             g.add("two", gen.req_op(tree, ov, cfg, gen.cut(s, [len(s) // 2])))
             groups.append(g)
-        # defaults
+        # defaults: the limits a constructor sets are the documented ones (1000 / 1000 / 10 000 000), whether the object
+        # comes from new() (`d` = fields left as made) or from Default::default() (`D`), and explicit spelling agrees
         g = Group("defaults", "req-defaults", {"stream": "", "cfg": [1000, 1000, 10_000_000]})
-        for L in (995, 996, 997):      # request line of exactly 1000 / 1001 bytes
-            line = b"GET /" + b"a" * L + b" HTTP/1.1"
-            g.add("line-%d" % len(line), gen.req_op(tree, ov, (1000, 1000, 10_000_000), [line + b"\r\n\r\n"]), {"len": len(line)})
+        for spelling in (("d", "d", "d"), ("D", "D", "D"), (1000, 1000, 10_000_000), ("D1000", "D1000", "D10000000"), ("D", 1000, "d"), (1000, "D", 10_000_000)):
+            tag = "/".join(str(x) for x in spelling)
+            for L in (995, 996, 997):      # request line of 999 / 1000 / 1001 bytes without its CRLF
+                line = b"GET /" + b"a" * L + b" HTTP/1.1"
+                g.add("%s line-%d" % (tag, len(line)), gen.req_op(tree, ov, spelling, [line + b"\r\n\r\n"]), {"want": "complete" if len(line) <= 1000 else "rejected", "what": "request line of %d bytes" % len(line)})
+            for L in (999, 1000, 1001, 1002, 5000):   # header line of L bytes with its CRLF
+                hline = b"X: " + b"v" * (L - 5) + b"\r\n"
+                s0 = b"GET / HTTP/1.1\r\n" + hline + b"\r\n"
+                g.add("%s header-%d" % (tag, L), gen.req_op(tree, ov, spelling, [s0]), {"want": "complete" if L <= 1000 else "rejected", "what": "header line of %d bytes" % L})
+                g.add("%s header-%d cut" % (tag, L), gen.req_op(tree, ov, spelling, gen.cut(s0, [len(s0) - 3, len(s0) // 2])), {"want": "complete" if L <= 1000 else "rejected", "what": "header line of %d bytes (split delivery)" % L})
+            g.add("%s header-unterminated" % tag, gen.req_op(tree, ov, spelling, [b"GET / HTTP/1.1\r\nX: " + b"v" * 1200]), {"want": "rejected", "what": "unterminated header line of 1203 bytes"})
+            g.add("%s line-unterminated" % tag, gen.req_op(tree, ov, spelling, [b"GET /" + b"v" * 1200]), {"want": "rejected", "what": "unterminated request line of 1205 bytes"})
+            head = b"POST / HTTP/1.1\r\nContent-Length: "
+            for total in (9_999_999, 10_000_000, 10_000_001):
+                d = total - len(head) - 4 - 7
+                s0 = head + str(d).encode() + b"\r\n\r\nabc"
+                assert len(s0) - 3 + d == total
+                g.add("%s total-%d" % (tag, total), gen.req_op(tree, ov, spelling, [s0]), {"want": "more" if total <= 10_000_000 else "rejected", "what": "declared total of %d bytes" % total})
         groups.append(g)
         return groups
 
@@ -681,9 +697,8 @@ class C08:
         if group.kind == "req-defaults":
             for i, m in enumerate(group.members):
                 r = ParseResult(res[group.tag(i)])
-                want = "complete" if m.meta["len"] <= 1000 else "rejected"
-                if r.verdict != want:
-                    fails.append(Failure(group, "default-limits", "request line of %d bytes under the default limits: %s" % (m.meta["len"], r.verdict), [i]))
+                if r.verdict != m.meta["want"]:
+                    fails.append(Failure(group, "default-limits", "%s under the default limits (constructor and spelling %s): %s, expected %s" % (m.meta["what"], m.label.split(" ")[0], r.verdict, m.meta["want"]), [i]))
             return fails
         rl, hl, mx = meta["cfg"]
         for i in range(len(group.members)):
